@@ -18,9 +18,11 @@ common.use_repo_sources()
 
 RULE = ("random parameter values (float64: N(0,1), tiny, large, mixed magnitudes 1e-20..1e20, D in 0..5) of both shipped MCMC "
         "sample types x real Screens of arity 1, 2 (3 = refused) with control by name or by dose in either/both columns; "
+        "half of the screens carry a non-default encoding (treatment/sample ids permuted, mapping rows shuffled) and half are only "
+        "partially observed (mask constant per plate); theta arrays C-ordered, Fortran-ordered or read-only strided views; "
         "random subsets, nested subsets, plates, row permutations, column swap, single-agent screens, holders of 0..4 samples "
-        "(also incomplete). Non-trivial: >=3 rows with a control in column 0 of some row, in column 1 of some row, and a full "
-        "combination row.")
+        "(also incomplete), helpers on subsets, and a call-order scenario on a fresh Screen object (plates first, whole screen, plates "
+        "again). Non-trivial: >=3 rows with a control in column 0 of some row, in column 1 of some row, and a full combination row.")
 
 REL = 1e-9
 
@@ -59,17 +61,34 @@ def _mat(rows, d):
     return a.reshape(len(rows), d)
 
 
+def _lay(a, layout):
+    """memory layout of a parameter array: C order, Fortran order, or a read-only strided view into a larger buffer
+    (the values are the same; code that assumes contiguity or writes into theta in place is exposed)"""
+    a = np.asarray(a, dtype=float)
+    if layout == "f":
+        return np.asfortranarray(a)
+    if layout == "strided_ro":
+        big = np.full(tuple(2 * k for k in a.shape), 7.5, dtype=float)
+        view = big[tuple(slice(None, None, 2) for _ in a.shape)]
+        view[...] = a
+        view.flags.writeable = False
+        return view
+    return a
+
+
 def theta_from_case(kind, c):
     from batchie.models.sparse_combo import SparseDrugComboMCMCSample
     from batchie.models.sparse_combo_interaction import SparseDrugComboInteractionMCMCSample
     d = c["D"]
+    lay = c.get("layout", "c")
     if kind == "sdc":
         return SparseDrugComboMCMCSample(
-            W=_mat(c["W"], d), W0=np.array([S.from_bits(b) for b in c["W0"]], dtype=float),
-            V2=_mat(c["V2"], d), V1=_mat(c["V1"], d), V0=np.array([S.from_bits(b) for b in c["V0"]], dtype=float),
+            W=_lay(_mat(c["W"], d), lay), W0=_lay(np.array([S.from_bits(b) for b in c["W0"]], dtype=float), lay),
+            V2=_lay(_mat(c["V2"], d), lay), V1=_lay(_mat(c["V1"], d), lay),
+            V0=_lay(np.array([S.from_bits(b) for b in c["V0"]], dtype=float), lay),
             alpha=S.from_bits(c["alpha"]), precision=S.from_bits(c["precision"]))
     return SparseDrugComboInteractionMCMCSample(
-        W=_mat(c["W"], d), V2=_mat(c["V2"], d), precision=S.from_bits(c["precision"]),
+        W=_lay(_mat(c["W"], d), lay), V2=_lay(_mat(c["V2"], d), lay), precision=S.from_bits(c["precision"]),
         single_effect_lookup={(int(a), int(b)): S.from_bits(v) for a, b, v in c["lookup"]})
 
 
@@ -137,10 +156,11 @@ def gen_theta_case(rng, kind, n_s, n_t, regime=None):
     d = rng.choice([0, 1, 1, 2, 2, 3, 5])
     val = lambda: fbits(rand_value(rng, regime))  # noqa: E731
     prec = fbits(rng.choice([1.0, 0.37, 2.5, 1e-12, 1e12, 10.0 ** rng.uniform(-30, 30), abs(rng.gauss(0, 1)) + 1e-3]))
+    layout = rng.choice(["c", "c", "c", "f", "strided_ro"])
     if kind == "sdc":
         return {"W": [[val() for _ in range(d)] for _ in range(n_s)], "W0": [val() for _ in range(n_s)],
                 "V2": [[val() for _ in range(d)] for _ in range(n_t)], "V1": [[val() for _ in range(d)] for _ in range(n_t)],
-                "V0": [val() for _ in range(n_t)], "alpha": val(), "precision": prec, "D": d, "regime": regime}
+                "V0": [val() for _ in range(n_t)], "alpha": val(), "precision": prec, "D": d, "regime": regime, "layout": layout}
     lookup = []
     for s in range(n_s):
         lookup.append([s, -1, fbits(1.0)])
@@ -149,7 +169,7 @@ def gen_theta_case(rng, kind, n_s, n_t, regime=None):
             lookup.append([s, t, fbits(v)])
     rng.shuffle(lookup)
     return {"W": [[val() for _ in range(d)] for _ in range(n_s)], "V2": [[val() for _ in range(d)] for _ in range(n_t)],
-            "precision": prec, "D": d, "lookup": lookup, "regime": regime}
+            "precision": prec, "D": d, "lookup": lookup, "regime": regime, "layout": layout}
 
 
 def gen_raw(rng, arity, n_s, n_t, n_max):
@@ -180,9 +200,31 @@ def gen_raw(rng, arity, n_s, n_t, n_max):
         td.append([c[1] for c in cells])
         sn.append(rng.choice(spool))
         pn.append("p%d" % rng.randrange(n_pl))
-    return dict(ctrl=ctrl, arity=arity, tnames=tn, tdoses=td, snames=sn, pnames=pn,
-                obs=[rng.random() for _ in range(n)], mask=None,
-                tmap=None, smap=None, n_s=n_s, n_t=n_t)
+    raw = dict(ctrl=ctrl, arity=arity, tnames=tn, tdoses=td, snames=sn, pnames=pn,
+               obs=[rng.random() for _ in range(n)], mask=None,
+               tmap=None, smap=None, n_s=n_s, n_t=n_t)
+    return decorate_raw(rng, raw)
+
+
+def decorate_raw(rng, raw):
+    """partially observed plates and non-default encodings: the ids still lie in [-1, n_t) x [0, n_s), but treatment
+    t_i / sample s_i no longer has id i and the mapping rows are not in (name, dose) / name order"""
+    n = len(raw["snames"])
+    if n and rng.random() < 0.5:
+        seen = {}
+        for pn in raw["pnames"]:
+            if pn not in seen:
+                seen[pn] = rng.random() < 0.5
+        raw["mask"] = [seen[pn] for pn in raw["pnames"]]
+    if rng.random() < 0.5:
+        tperm = list(range(raw["n_t"]))
+        sperm = list(range(raw["n_s"]))
+        trow = list(range(raw["n_t"] + len(CTRL_CELLS)))
+        srow = list(range(raw["n_s"]))
+        for x in (tperm, sperm, trow, srow):
+            rng.shuffle(x)
+        raw["enc"] = {"tperm": tperm, "sperm": sperm, "trow": trow, "srow": srow}
+    return raw
 
 
 CTRL_CELLS = [("control", 0.0), ("control", 2.0), ("t0", 0.0), ("zz", -1.0), ("control", 1.0)]
@@ -193,6 +235,16 @@ def mappings_for(raw):
     """the mapping batchie itself produces for a screen listing every pool member and every spelling of control
     (so ids are stable: treatment t_i <-> id i, sample s_i <-> id i)"""
     n_t, n_s = raw["n_t"], raw["n_s"]
+    enc = raw.get("enc")
+    if enc:
+        tm, sm = mappings_for(dict(raw, enc=None))
+        ids = np.array([enc["tperm"][int(i)] if int(i) >= 0 else -1 for i in tm[2]], dtype=np.asarray(tm[2]).dtype)
+        o = np.array(enc["trow"], dtype=int)
+        assert len(o) == len(ids), (len(o), len(ids))
+        tm2 = (np.asarray(tm[0])[o], np.asarray(tm[1])[o], ids[o])
+        sid = np.array([enc["sperm"][int(i)] for i in sm[1]], dtype=np.asarray(sm[1]).dtype)
+        o = np.array(enc["srow"], dtype=int)
+        return tm2, (np.asarray(sm[0])[o], sid[o])
     if (n_t, n_s) in _MAP_CACHE:
         return _MAP_CACHE[(n_t, n_s)]
     rows_t = [("t%d" % i, 1.0 + (i % 3)) for i in range(n_t)] + CTRL_CELLS
@@ -222,6 +274,7 @@ def build_screen(raw, tnames=None, tdoses=None, rows=None, arity=None):
         sample_names=np.array([raw["snames"][i] for i in idx], dtype=str),
         plate_names=np.array([raw["pnames"][i] for i in idx], dtype=str),
         observations=np.array([raw["obs"][i] for i in idx], dtype=float),
+        observation_mask=(None if raw.get("mask") is None else np.array([raw["mask"][i] for i in idx], dtype=bool)),
         control_treatment_name=raw["ctrl"], treatment_mapping=tmap, sample_mapping=smap)
 
 
@@ -449,6 +502,27 @@ def run_case(case, res, lines):
             R.tie("c09.%s %s %s %s" % (kind, what, theta_tok(kind, th), screen_toks(sub)), got,
                   [scales[i] for i in np.where(m1)[0]] if scales else None, what, "subset")
 
+    # ---- call order: a FRESH Screen object (its treatment_ids is the internal array, a plate's is a copy) is first
+    #      used plate by plate, then as a whole, then plate by plate again; every result must be the corresponding
+    #      entries of the whole-first run above, and no call may change the screen or the sample ------------------
+    if n and ok_whole:
+        fresh = build_screen(raw)
+        pids = np.asarray(fresh.plate_ids).copy()
+        for phase in ("plates before", "whole", "plates after"):
+            if phase == "whole":
+                targets = [(fresh, np.arange(n))]
+            else:
+                targets = [(pl, np.where(pids == pl.plate_id)[0]) for pl in fresh.plates]
+            for v, idx in targets:
+                for what in ok_whole:
+                    got = R.call(th, what, v, fresh)
+                    want = [ok_whole[what][i] for i in idx]
+                    if isinstance(got, str) or not same(got, want):
+                        R.fail("prediction depends on the order of calls (%s the whole-screen call on a fresh Screen)" % phase,
+                               {"method": what, "rows": [int(i) for i in idx][:12], "got": got if isinstance(got, str) else got[:8]}, want[:8],
+                               signature="C09:call-order")
+                        break
+
     # ---- treatment order: swap the two columns -------------------------------------------------
     if arity == 2 and n and ok_whole:
         sw = build_screen(raw, tnames=[r[::-1] for r in raw["tnames"]], tdoses=[r[::-1] for r in raw["tdoses"]])
@@ -563,6 +637,35 @@ def run_case(case, res, lines):
         elif not rows_ok or has_nan:
             if not isinstance(allp_l, str):
                 R.fail("predict_%s_all returns although a sample is missing / fails / predicts NaN" % what, "matrix", "an exception")
+        # the helpers on a subset / a plate: the corresponding COLUMNS of the helpers on the whole screen, exactly
+        if n and not isinstance(allp_l, str) and shape == (declared, n) and declared > 0:
+            views = [("subset", base.subset(m1), np.where(m1)[0])] if m1.any() else []
+            pl0 = base.plates[0]
+            views.append(("plate", pl0, np.where(np.asarray(base.plate_ids) == pl0.plate_id)[0]))
+            for name, v, idx in views:
+                b_sc = snap_screen(base)
+                try:
+                    sub_all = [[float(x) for x in r] for r in np.asarray(fn_all(v, holder), dtype=float)]
+                except Exception as e:  # noqa
+                    sub_all = err_tok(e)
+                want = [[r[i] for i in idx] for r in allp_l]
+                if isinstance(sub_all, str) or len(sub_all) != declared or any(not same(a, b) for a, b in zip(sub_all, want)):
+                    R.fail("predict_%s_all on a %s is not the corresponding columns of predict_%s_all on the whole screen" % (what, name, what),
+                           {"rows": [int(i) for i in idx][:12], "got": sub_all if isinstance(sub_all, str) else [r[:6] for r in sub_all[:3]]},
+                           [r[:6] for r in want[:3]], signature="C09:helper-subset")
+                if fn_avg is not None and not isinstance(avg, str) and len(avg) == n:
+                    try:
+                        with np.errstate(all="ignore"):
+                            sub_avg = [float(x) for x in fn_avg(v, holder)]
+                    except Exception as e:  # noqa
+                        sub_avg = err_tok(e)
+                    want = [avg[i] for i in idx]
+                    if isinstance(sub_avg, str) or not same(sub_avg, want):
+                        R.fail("predict_%s_avg on a %s is not the corresponding entries of predict_%s_avg on the whole screen" % (what, name, what),
+                               {"rows": [int(i) for i in idx][:12], "got": sub_avg if isinstance(sub_avg, str) else sub_avg[:8]}, want[:8],
+                               signature="C09:helper-subset")
+                if snap_screen(base) != b_sc:
+                    R.fail("predict_*_all/avg on a %s mutated the screen" % name, {"method": what}, "bit-identical before/after")
         hs = [theta_tok(kind, t) for t in held]
         hl = "c09.hold %s %%s %s %d %s %s" % (kind, what, declared, "-" if not hs else "/".join(hs), screen_toks(base))
         R.tie(hl % "all", allp_l, scales, what, "all", matrix=True)
@@ -638,7 +741,7 @@ def gen_case(rng, idx):
     n = len(raw["snames"])
     n_th = rng.choice([0, 1, 2, 3, 4])
     regime = rng.choice(["normal", "normal", "normal", "tiny", "large", "mixed", "grid"])
-    short = rng.random() < 0.06      # theta with one treatment row too few -> IndexError when that id occurs
+    short = rng.random() < 0.1      # theta with one treatment row too few -> IndexError when that id occurs
     thetas = [gen_theta_case(rng, kind, n_s, max(n_t - (1 if short else 0), 0), regime) for _ in range(max(n_th, 1))]
     if (short or n_t == 0) and any(t["D"] == 0 for t in thetas):
         # numpy skips the bounds check when the gathered rows are empty (D = 0); keep ids in range there
@@ -724,15 +827,28 @@ def _run(ctx, res):
             res.count("holder.incomplete")
         if case["short_theta"]:
             res.count("theta.too_small")
+        res.count("theta.layout.%s" % case["thetas"][0].get("layout", "c"))
+        if raw.get("enc"):
+            res.count("screen.nondefault_encoding")
+        if raw.get("mask") is not None and not all(raw["mask"]):
+            res.count("screen.partially_observed")
         if d["arity"] == 2 and d["rows"] >= 3:
             b = build_screen(raw)
             t = np.asarray(b.treatment_ids)
+            th0 = case["thetas"][0]
+            if (t == -1).any() and th0["V2"] and any(S.from_bits(x) != 0.0 for x in th0["V2"][-1]) \
+                    and (d["kind"] == "sdci" or (S.from_bits(th0["V0"][-1]) != 0.0 and any(S.from_bits(x) != 0.0 for x in th0["V1"][-1]))):
+                res.count("control_with_nonzero_last_theta_row")
             c0 = bool(((t[:, 0] == -1) & (t[:, 1] != -1)).any())
             c1 = bool(((t[:, 1] == -1) & (t[:, 0] != -1)).any())
             both = bool(((t == -1).all(axis=1)).any())
             full = bool(((t != -1).all(axis=1)).any())
             if both:
                 res.count("rows.control_control")
+            if c0:
+                res.count("rows.control_col0_only")
+            if c1:
+                res.count("rows.control_col1_only")
             if c0 and c1 and full:
                 res.nontrivial.add((d["kind"], i))
                 res.count("nontrivial")
